@@ -8,7 +8,7 @@ _CACHE = {}
 
 def make_prior(kind="default", poly_trend=1, n_offsets=0, sigma_K0=30.0, P0_days=365.25, sigma_v=(100.0, 2.0, 0.05),
                mu_v=(0.0, 0.0, 0.0), K_custom=(0.0, 25.0), off_sig=(3.0, 5.0), off_mu=(0.0, 0.0), v_unit="km/s",
-               P_unit="day", P_lim=(1.0, 1000.0), s_const=0.0, cache=True):
+               P_unit="day", P_lim=(1.0, 1000.0), s_const=0.0, cache=True, K_unit=None, v_time_unit="day", P0_unit="day"):
     """Returns (JokerPrior, declared) - declared holds plain numbers in km/s and days."""
     import astropy.units as u
     import pymc as pm
@@ -17,11 +17,16 @@ def make_prior(kind="default", poly_trend=1, n_offsets=0, sigma_K0=30.0, P0_days
     from thejoker.distributions import FixedCompanionMass
 
     key = (kind, poly_trend, n_offsets, sigma_K0, P0_days, tuple(sigma_v), tuple(mu_v), tuple(K_custom), tuple(off_sig), tuple(off_mu),
-           v_unit, P_unit, tuple(P_lim), s_const)
+           v_unit, P_unit, tuple(P_lim), s_const, K_unit, v_time_unit, P0_unit)
     if cache and key in _CACHE:
         return _CACHE[key]
     vu = u.km / u.s if v_unit == "km/s" else u.m / u.s
     vf = 1.0 if v_unit == "km/s" else 1000.0  # numeric factor km/s -> v_unit
+    K_unit = K_unit or v_unit
+    Ku = u.km / u.s if K_unit == "km/s" else u.m / u.s
+    Kf = 1.0 if K_unit == "km/s" else 1000.0
+    tu = u.day if v_time_unit == "day" else u.yr
+    tf = 1.0 if v_time_unit == "day" else 365.25  # days per time unit of the trend priors
     Pu = {"day": u.day, "yr": u.yr, "h": u.hour}[P_unit]
     Pf = (1 * u.day).to_value(Pu)
     with pm.Model() as model:
@@ -31,12 +36,12 @@ def make_prior(kind="default", poly_trend=1, n_offsets=0, sigma_K0=30.0, P0_days
             # custom linear trend priors (non-zero means need explicit Normals)
             for i in range(poly_trend):
                 # v_i unit: velocity / day^i  (prior may be declared in v_unit)
-                pars[f"v{i}"] = xu.with_unit(pm.Normal(f"v{i}", mu_v[i] * vf, sigma_v[i] * vf), vu / u.day**i)
+                pars[f"v{i}"] = xu.with_unit(pm.Normal(f"v{i}", mu_v[i] * vf * tf**i, sigma_v[i] * vf * tf**i), vu / tu**i)
         if kind == "custom":
-            pars["K"] = xu.with_unit(pm.Normal("K", K_custom[0] * vf, K_custom[1] * vf), vu)
-        sv = [sigma_v[i] * vf * vu / u.day**i for i in range(poly_trend)]
+            pars["K"] = xu.with_unit(pm.Normal("K", K_custom[0] * Kf, K_custom[1] * Kf), Ku)
+        sv = [sigma_v[i] * vf * tf**i * vu / tu**i for i in range(poly_trend)]
         prior = tj.JokerPrior.default(
-            P_min=P_lim[0] * Pf * Pu, P_max=P_lim[1] * Pf * Pu, sigma_K0=sigma_K0 * vf * vu, P0=P0_days * u.day,
+            P_min=P_lim[0] * Pf * Pu, P_max=P_lim[1] * Pf * Pu, sigma_K0=sigma_K0 * Kf * Ku, P0=(P0_days * u.day) if P0_unit == "day" else (P0_days / 365.25 * u.yr),
             sigma_v=sv if poly_trend > 1 else sv[0], s=s_const * vf * vu, poly_trend=poly_trend, v0_offsets=offs, model=model,
             pars=pars if pars else None,
         )
@@ -87,8 +92,8 @@ def make_data(n=5, layout="short", err="hetero", unit="km/s", t_ref=None, seed=0
         sig = np.full(n, 1e-3) * (1 + np.arange(n) % 3)
     else:  # large
         sig = np.full(n, 50.0) * (1 + 0.1 * (np.arange(n) % 3))
-    uu = u.km / u.s if unit == "km/s" else u.m / u.s
-    f = 1.0 if unit == "km/s" else 1000.0
+    uu = {"km/s": u.km / u.s, "m/s": u.m / u.s, "cm/s": u.cm / u.s}[unit]
+    f = {"km/s": 1.0, "m/s": 1000.0, "cm/s": 1e5}[unit]
     labels = np.zeros(n, dtype=int)
     kw = {}
     tr = float(t.min())
@@ -109,17 +114,19 @@ def make_data(n=5, layout="short", err="hetero", unit="km/s", t_ref=None, seed=0
     return data, dict(t=t, y=y, sig=sig, t_ref=tr, labels=labels, unit=unit, factor=f)
 
 
-def make_samples(theta, s_unit="km/s", extra=None):
-    """JokerSamples from rows (P[d], e, omega[rad], M0[rad], s[km/s])."""
+def make_samples(theta, s_unit="km/s", extra=None, P_unit="day", angle_unit="rad"):
+    """JokerSamples from rows (P[d], e, omega[rad], M0[rad], s[km/s]), stored in the requested column units."""
     import astropy.units as u
     import thejoker as tj
 
     theta = np.atleast_2d(np.asarray(theta, dtype=float))
     s = tj.JokerSamples()
-    s["P"] = theta[:, 0] * u.day
+    Pu = {"day": u.day, "yr": u.yr, "h": u.hour}[P_unit]
+    au = u.rad if angle_unit == "rad" else u.deg
+    s["P"] = (theta[:, 0] * u.day).to(Pu) if P_unit != "day" else theta[:, 0] * u.day
     s["e"] = theta[:, 1] * u.one
-    s["omega"] = theta[:, 2] * u.rad
-    s["M0"] = theta[:, 3] * u.rad
+    s["omega"] = (theta[:, 2] * u.rad).to(au) if angle_unit != "rad" else theta[:, 2] * u.rad
+    s["M0"] = (theta[:, 3] * u.rad).to(au) if angle_unit != "rad" else theta[:, 3] * u.rad
     if s_unit == "km/s":
         s["s"] = theta[:, 4] * u.km / u.s
     else:
